@@ -106,6 +106,39 @@ def h_list(E, kind, attempt):
     return 'ok'
 
 
+def h_list_length(E, kind, n_stu):
+    """the number of submitted boxes is arbitrary: a ListGrader call either raises a library error or returns one well-formed entry per box, in box order"""
+    import mitxgraders.baseclasses as B
+    from mitxgraders import ListGrader
+    from mitxgraders.exceptions import MITxError
+    stus = ['s%d' % i for i in range(n_stu)]
+    exps = ['e0', 'e1', 'e2', 'e3']
+    T = {(e, s): E.real('g_%s_%s' % (e, s), 0, 1) for e in exps for s in stus}
+    TG = make_table_grader(T)
+    with shadow(B, float=sym_float):
+        if kind == 'flat':
+            g = ListGrader(answers=exps[:3], subgraders=TG(), ordered=False)
+        elif kind == 'flat-ordered':
+            g = ListGrader(answers=exps[:3], subgraders=[TG(), TG(), TG()], ordered=True)
+        elif kind == 'grouped':
+            g = ListGrader(answers=[['e0', 'e1'], ['e2', 'e3']], subgraders=ListGrader(subgraders=TG()), ordered=True, grouping=[1, 1, 2, 2])
+        elif kind == 'grouped-unordered':
+            g = ListGrader(answers=[['e0', 'e1'], ['e2', 'e3']], subgraders=ListGrader(subgraders=TG()), ordered=False, grouping=[1, 2, 1, 2])
+        else:
+            g = ListGrader(answers=[['e0', 'e1'], 'e2'], subgraders=[ListGrader(subgraders=TG()), TG()], ordered=True, grouping=[1, 2, 1])
+        try:
+            r = g(None, list(stus))
+        except MITxError as e:
+            E.check('wrong-number-of-boxes-is-a-library-error', True)
+            return type(e).__name__
+    E.check('list-structure', set(r.keys()) == {'overall_message', 'input_list'} and len(r['input_list']) == n_stu and isinstance(r['overall_message'], str))
+    for ent in r['input_list']:
+        _entry_ok(E, ent)
+    E.check('entries-in-input-order', [ent['msg'].split('/')[-1] for ent in r['input_list']] == stus)
+    _no_leak(E, _result_texts(r))
+    return 'ok'
+
+
 def _formula_grader(E, cls, debug, samples=2):
     from mitxgraders import FormulaGrader, NumericalGrader
     a = E.real('a', 0, 1)
@@ -245,6 +278,9 @@ def harnesses(tier):
     for kind in ('slg', 'slg-surplus', 'slg-short', 'list-ordered', 'list-unordered', 'list-of-slg'):
         for att in (False, True):
             add(h_list, 'list', dict(kind=kind, attempt=att), '2 entries, credits in [0,1]')
+    for kind in ('flat', 'flat-ordered', 'grouped', 'grouped-unordered', 'grouped-mixed'):
+        for n_stu in range(1, 7):
+            add(h_list_length, 'list_length', dict(kind=kind, n_boxes=n_stu), '1..6 submitted boxes against 3 or 4 expected; credits in [0,1]', max_paths=None if T else 60)
     for cls in ('formula', 'numerical'):
         for inp in ('right', 'alt', 'wrong'):
             for dbg in (False, True):
